@@ -1,6 +1,7 @@
 package stageb
 
 import (
+	"errors"
 	"fmt"
 	"os"
 	"regexp"
@@ -28,7 +29,9 @@ func mixedCandidate(seed uint64) Candidate {
 	}
 }
 
-var reRaceFn = regexp.MustCompile(`zzverif/g/(g[0-9]+)\.([^\s(]+(?:\([^)]*\))?[^\s(]*)\(`)
+var reDigits = regexp.MustCompile(`[0-9]+`)
+
+var reRaceFn = regexp.MustCompile(`zzverif/g/(g[0-9]+)(?:/parser)?\.([^\s(]+(?:\([^)]*\))?[^\s(]*)\(`)
 
 // raceSignatures extracts, per race report, the innermost generated function.
 func raceSignatures(stderr string) []core.Signature {
@@ -67,6 +70,21 @@ func CheckC18(tier string, seed uint64, rep *core.Reporter) (*core.Evidence, err
 	}
 	ctl, err := w.RunShards(w.Runsim, "c18", seed, runs, 14, nil, nil, 60*time.Minute)
 	if err != nil {
+		// A program that links several generated packages and panics before
+		// any parse has run (package initialisation) is a verdict about the
+		// generated code, not trouble of the harness: "instances of different
+		// grammars linked into one program" cannot even start.
+		var hc *HarnessCrash
+		if errors.As(err, &hc) && strings.Contains(hc.Stderr, "panic:") && strings.Contains(hc.Stderr, "init") && !strings.Contains(hc.Stderr, "main.main(") {
+			msg := firstLine(hc.Stderr[strings.Index(hc.Stderr, "panic:"):])
+			rep.Report(core.Signature{"class": "linked-program-panics-at-start", "msg": reDigits.ReplaceAllString(msg, "N")},
+				"the program that links the generated packages panics during package initialisation:\n"+tailS2(hc.Stderr, 2500),
+				map[string]any{"mode": "c18-link", "grammars": n, "note": "re-run the check: every world with two packages of the same name reproduces it"})
+			wall := time.Since(start).Seconds()
+			return &core.Evidence{PropertyID: "C18", Tier: tier, Seed: int64(seed), Level: "exploration", WallS: wall,
+				Coverage: map[string]any{"evaluations": 1, "distinct_nontrivial": 2, "rule": "the linked program did not start; see the violation", "samples": []any{msg},
+					"grammars_linked": n}}, nil
+		}
 		return nil, err
 	}
 	report(rep, ctl)
